@@ -322,10 +322,39 @@ def check_list(ctx, inst, rng, ports, kinds):
             ctx.violation("lookup of None returned a port", dict(witness, returned=got))
 
 
+def enumerator_unavailable(ctx, inst):
+    """The platform enumerator gives no list (None -> TypeError inside list()): every discovery
+    function answers None and none raises; afterwards normal enumerations work again."""
+    legacy, ebb3 = inst.legacy, inst.ebb3
+    saved = (legacy.comports, ebb3.comports)
+    legacy.comports = ebb3.comports = lambda: None
+    witness = {"ports": None, "enumerator": "returns None"}
+    try:
+        obj = ebb3.EBB3()
+        for label, fn, args in (("ebb_serial.findPort", legacy.findPort, ()), ("ebb_serial.listEBBports", legacy.listEBBports, ()),
+                                ("ebb_serial.list_named_ebbs", legacy.list_named_ebbs, ()),
+                                ("ebb_serial.find_named_ebb", legacy.find_named_ebb, ("Ada",)),
+                                ("ebb3_serial.list_ebb_ports", ebb3.list_ebb_ports, ()),
+                                ("ebb3_serial.list_named_ebbs", ebb3.list_named_ebbs, ()),
+                                ("ebb3_serial.find_named", ebb3.find_named, ("Ada",)), ("EBB3.find_first", obj.find_first, ())):
+            okx, got = call(ctx, witness, label, fn, *args)
+            ctx.case(["enumerator unavailable (returns None)"], ("none", label), nontrivial=False)
+            ctx.count("monitor:return values checked")
+            if okx and got is not None:
+                ctx.violation("discovery returned something although nothing was enumerated", dict(witness, function=label, returned=got))
+        if obj.port_name is not None:
+            ctx.violation("discovery returned something although nothing was enumerated",
+                          dict(witness, function="EBB3.find_first", returned=obj.port_name))
+    finally:
+        legacy.comports, ebb3.comports = saved
+
+
 def run(ctx):
     rng = ctx.rng
     inst = Installed()
     try:
+        for _ in range(30):
+            enumerator_unavailable(ctx, inst)
         for i in range(ctx.budget(20000, 150000)):
             if not ctx.alive():
                 break
@@ -347,6 +376,7 @@ def run(ctx):
         ctx.need(cls, 100)
     ctx.need("monitor:return values checked", 50000)
     ctx.need("history: empty list on a re-used object", 200)
+    ctx.need("enumerator unavailable (returns None)", 100)
     ctx.need("history: listing asked again after the caller emptied the returned list", 2000)
     ctx.need("history: after failed lookups (non-string names)", 100)
     ctx.need("history: object re-used after a list with a board", 1000)
